@@ -97,6 +97,22 @@ Theorem C06_email_access_model :
   emailA tld_list us (a ++ [NUL]) m tld (length a) = RetA (rc (email idn g tld_list (MA m) tld a)).
 Proof. intros us a idn g m tld Ha Hus. apply emailA_refines; [exact C06_table_names_are_C_strings|exact Ha|exact Hus]. Qed.
 Print Assumptions C06_email_access_model.
+(* mode 6531: the composer's own reads (strrchr for '@', the UTF-8 scanner, *brs, check_ip) stay inside the string and give the
+   functional model's code; a host-name domain is handed, at the index right after the last '@', to is_utf8_domain — the IDN
+   library and a heap copy of its output, which no access model describes (ext) *)
+Theorem C06_email6531_access_model :
+  forall tbl a idn g tld ext, nulfree a ->
+  email6A (a ++ [NUL]) g ext (length a) =
+  match split_last AT a with
+  | Some (l, d0 :: d') =>
+    if Nat.ltb 64 (length l) then RetA E_LPART_TOO_LONG
+    else if negb (local6531 g l =? 0)%Z then RetA (local6531 g l)
+    else if beqb d0 LBR then RetA (rc (email idn g tbl M6531 tld a))
+    else ext (S (length l))
+  | _ => RetA (rc (email idn g tbl M6531 tld a))
+  end.
+Proof. exact email6A_refines. Qed.
+Print Assumptions C06_email6531_access_model.
 
 (* look-ahead discipline: whatever lies beyond the end pointer can influence a scanner only through the byte at [end] *)
 Theorem C06_local_lookahead :
